@@ -14,13 +14,13 @@ CLAIMED = {
          "tech": TECH},
 }
 CLAIMED.update({
- "C04": {"cat": "proof", "text": "Every function that writes or reports the verdict is under contract and proved: Fail/FailAll/Stopper._stop_me invalidate exactly when fired, ErrorHandler._handle_if exactly under 'fail' (symbolic policy and overrides), Matcher.matches/_consider_line are monotone, Failed reports the current verdict, ResultsManager.is_valid / ResultsRegistrar.all_valid / register_complete are the conjunction of the members (unbounded loops with invariants); a frame scan over the whole package proves no writer can set the verdict back to True.",
+ "C04": {"cat": "proof", "text": "Every function that writes or reports the verdict is under contract and proved: Fail/FailAll/Stopper._stop_me invalidate exactly when fired, ErrorHandler._handle_if exactly under 'fail' (symbolic policy and overrides), Matcher.matches/_consider_line are monotone, Failed reports the current verdict, ResultsManager.is_valid / ResultsRegistrar.all_valid / register_complete are the conjunction of the members (unbounded loops with invariants); a frame scan over the whole package proves no writer can set the verdict back to True. Bounded complement: conditional fail()/fail_and_stop() at every line with a per-line valid()/failed() observer, errors under 17 policies, and groups of 2-3 members (results_manager.is_valid, manifest all_valid) on the real CsvPath/CsvPaths.",
          "note": "Assumes [A]: match components as interface objects (vote / fires stop / fails), Result.is_valid as the member verdict, manifest bytes on disk (json.dump) not modelled; explain-mode off.",
          "tech": TECH + " + syntactic frame scan"},
- "C05": {"cat": "proof", "text": "The five observable effects of error handling are postconditions on normal AND exceptional exits of the real ErrorHandler._handle_if for a symbolic policy list and symbolic validation-mode overrides (the 2^6 x 3^4 split is done by the solver); do_i_* and ValidationMode.set_* are proved against override-else-policy; attribute safety turns a missing attribute into a failed no_unexpected_exception obligation; Expression.matches traps everything; Matcher.matches hands trapped errors over on every exit.",
+ "C05": {"cat": "proof", "text": "The five observable effects of error handling are postconditions on normal AND exceptional exits of the real ErrorHandler._handle_if for a symbolic policy list and symbolic validation-mode overrides (the 2^6 x 3^4 split is done by the solver); do_i_* and ValidationMode.set_* are proved against override-else-policy; attribute safety turns a missing attribute into a failed no_unexpected_exception obligation; Expression.matches traps everything; Matcher.matches hands trapped errors over on every exit. Bounded complement: all 63 policy subsets x 4 error kinds x offending-line positions x 7 validation-mode overrides on the real CsvPath.",
          "note": "Assumes [A]: CsvPath.print as abstract printer log, ECM policy snapshot equals the passed policy, collector is a CsvPath (Result collector not yet under contract), logging dropped.",
          "tech": TECH},
- "C13": {"cat": "proof", "text": "Matcher.matches is proved against control clauses taken from the property (no component after a halt, skip means no match and does not outlive the line, stop mid-line means no match, stop as final component keeps the fold), CsvPath.next (generator, ghost yield list) against 'no record after the stopping one', _consider_line against the advance and blank-last clauses, Stop/Skip/Advance/Last._decide_match against fires-iff clauses; all loops by invariants, unbounded.",
+ "C13": {"cat": "proof", "text": "Matcher.matches is proved against control clauses taken from the property (no component after a halt, skip means no match and does not outlive the line, stop mid-line means no match, stop as final component keeps the fold), CsvPath.next (generator, ghost yield list) against 'no record after the stopping one', _consider_line against the advance and blank-last clauses, Stop/Skip/Advance/Last._decide_match against fires-iff clauses; all loops by invariants, unbounded. Bounded complement: every position of a stop/skip/advance/last component among 1-3 side-effecting components, every firing line, 3 scan windows, files with interior/trailing blank records, on the real CsvPath.",
          "note": "Assumes [A]: match components / records as interface objects with ghost fields; generator protocol; scanner well-formedness from C02; explain-mode off.",
          "tech": TECH},
 })
